@@ -9,9 +9,8 @@ CONSTANTS
   QS = {1, 2}
   ADVS = {0, 2, 3, 4, 5}
   LENS = {0, 1, 2, 3}
-  RESTART = FALSE
+  MODES = {"asis_nodrop"}
   DUPOKS = {TRUE}
-  DROPS = FALSE
   PRIVATES = {FALSE}
 INVARIANT Inv
 PROPERTY Live
